@@ -12,7 +12,7 @@ EXTENDS XDM, TLC
 
 CONSTANTS Axes, Tests, Preds, ParenPreds,
           DocSibs,    \* TRUE: documents with comment/PI siblings of the document element (lxml)
-          NsTests,    \* node tests used on the namespace axis: subset of {"*", "p", "q", "xml", "node()"}; {} = none
+          NsTests,    \* node tests used on the namespace axis: subset of {"*", "p", "q", "r", "xml", "node()"}; {} = none
           Preds2      \* first predicates of two-predicate steps axis::test[p1][p2], p2 in {"1", "last()"}; {} = none
 
 VARIABLES cur
@@ -33,6 +33,8 @@ OpParen(S, pr)            == FilterSeq(AscSeq(S), pr)
    sequence in DOCUMENT order before the predicate numbers it - also on reverse axes, per context node *)
 OpParenStep(S, ax, t, pr) == UNION {FilterSeq(AscSeq(StepSet(ax, t, x)), pr) : x \in S}
 ParenStepPred == [p \in {"step:1", "step:2", "step:last()"} |-> CASE p = "step:1" -> "1" [] p = "step:2" -> "2" [] OTHER -> "last()"]
+OpParen2(S, p1, p2)       == FilterSeq(KeepSeq(AscSeq(S), p1), p2)
+OpParenStep2(S, ax, t, p1, p2) == UNION {FilterSeq(KeepSeq(AscSeq(StepSet(ax, t, x)), p1), p2) : x \in S}
 OpStepPred2(S, ax, t, p1, p2) == UNION {FilterSeq(KeepSeq(StepSeq(ax, t, x), p1), p2) : x \in S}
 
 (* axis::test *)
@@ -65,7 +67,9 @@ DSlashPred(ax, t, pr) ==
 (* is an OBSERVATION on the current state (one group of namespace nodes per element of cur, in  *)
 (* document order of the elements; nothing for other node kinds), and                           *)
 (* E/namespace::t/parent::node() leads back to the elements of cur.                              *)
-InScopePrefixes == {"xml", "p", "q"}
+\* a configuration whose NsTests contain "r" also binds a SECOND prefix r to the namespace of p: one namespace node per
+\* prefix, not per namespace name
+InScopePrefixes == {"xml", "p", "q"} \cup (IF "r" \in NsTests THEN {"r"} ELSE {})
 NsMatch(t) == IF t \in {"*", "node()"} THEN InScopePrefixes ELSE {t} \cap InScopePrefixes
 NsObservation(t) == [x \in {y \in cur : IsElem(y)} |-> NsMatch(t)]
 NsStep(t)   == UNCHANGED <<parent, kind, cur>>
@@ -82,6 +86,15 @@ Root == /\ cur = {StartNode}
 Paren(pr) == /\ pr \notin DOMAIN ParenStepPred
              /\ cur' = OpParen(cur, pr)
              /\ UNCHANGED <<parent, kind>>
+(* (E)[p1][p2] and E/(axis::test)[p1][p2]: after parentheses EVERY predicate numbers in document order (never along a
+   reverse axis); enabled by the first-predicate tokens of Preds2 when ParenPreds has a "step:" token *)
+ParenFamily == ParenPreds \cap DOMAIN ParenStepPred # {}
+Paren2(p1, p2) == /\ ParenFamily
+                  /\ cur' = OpParen2(cur, p1, p2)
+                  /\ UNCHANGED <<parent, kind>>
+ParenStep2(ax, t, p1, p2) == /\ ParenFamily
+                             /\ cur' = OpParenStep2(cur, ax, t, p1, p2)
+                             /\ UNCHANGED <<parent, kind>>
 (* E/(axis::test)[pred]; enabled by the tokens "step:1", "step:2", "step:last()" of ParenPreds *)
 ParenStep(ax, t, pr) == /\ pr \in DOMAIN ParenStepPred
                         /\ cur' = OpParenStep(cur, ax, t, ParenStepPred[pr])
@@ -93,6 +106,8 @@ Next == \/ \E ax \in Axes, t \in Tests : Step(ax, t)
         \/ \E ax \in Axes, t \in Tests, pr \in Preds : DSlashPred(ax, t, pr)
         \/ \E pr \in ParenPreds : Paren(pr)
         \/ \E ax \in Axes, t \in Tests, pr \in ParenPreds : ParenStep(ax, t, pr)
+        \/ \E p1 \in Preds2, p2 \in {"1", "last()"} : Paren2(p1, p2)
+        \/ \E ax \in Axes, t \in Tests, p1 \in Preds2, p2 \in {"1", "last()"} : ParenStep2(ax, t, p1, p2)
         \/ \E ax \in Axes, t \in Tests, p1 \in Preds2, p2 \in {"1", "last()"} : StepPred2(ax, t, p1, p2)
         \/ \E t \in NsTests : NsStep(t)
         \/ \E t \in NsTests : NsParent(t)
